@@ -316,3 +316,15 @@ package consensus
 //@   ensures result1 != nil ==> result0 == nil
 //@   ensures result1 == ErrVerifyBlockFailed || result1 == ErrIgnoreBlock ==> gh("chainWrites", 0) == old(gh("chainWrites", 0))
 //@   ensures result1 == nil ==> gh("chainWrites", 0) == old(gh("chainWrites", 0)) + 1
+
+// C02: "re-executing the block reproduces every root in the header": the locally sealed block's roots come from the local
+// execution, never from the received header.  (Time, extra data, gas limit, miner address and parent are the miner's choice.)
+//@ func (*BlockAssembler).Seal
+//@   props C02
+//@   requires ba != nil && header != nil && txProduct != nil && deputynode.cfgOK()
+//@   ensures result != nil && result.Header != nil && result.Header != header
+//@   ensures result.Header.VersionRoot == txProduct.VersionRoot && result.Header.GasUsed == txProduct.GasUsed
+//@   ensures result.Header.LogRoot == txProduct.ChangeLogs.MerkleRootSha() && result.Header.TxRoot == txProduct.Txs.MerkleRootSha()
+//@   ensures header.Height % params.TermDuration == 0 ==> content(result.Header.DeputyRoot) == content(ba.canLoader.LoadTopCandidates(header.ParentHash).MerkleRootSha())
+//@   ensures header.Height % params.TermDuration != 0 ==> len(result.Header.DeputyRoot) == 0
+//@   nopanic
